@@ -57,6 +57,7 @@ Record sconn := mkSC {
   sc_infl : N;               (* in_flight_response_count : u32 *)
   sc_client : nat;           (* which client is at the other end (ghost) *)
   sc_out : bool;             (* epoll interest is OUT|RDHUP rather than IN|RDHUP (kernel view) *)
+  sc_gid : nat;              (* connection instance (ghost): never reused, unlike the descriptor *)
 }.
 
 Inductive serr := EShutdown | EInvalidWrite | EOverflow | EUnderflow | EPanic.
@@ -78,7 +79,7 @@ Definition cc_read (x : sconn) (ev : read_ev) : (sconn * list request) + serr :=
   let '(c1, res, _) := try_read BUF (sc_conn x) ev in
   match res with
   | RdPanic _ => inr EPanic
-  | RdErr ConnectionClosed => inl (mkSC c1 SClosed (sc_infl x) (sc_client x) (sc_out x), [])
+  | RdErr ConnectionClosed => inl (mkSC c1 SClosed (sc_infl x) (sc_client x) (sc_out x) (sc_gid x), [])
   | _ =>
     let '(c2, reqs) :=
       match res with
@@ -90,7 +91,7 @@ Definition cc_read (x : sconn) (ev : read_ev) : (sconn * list request) + serr :=
       end in
     let infl := sc_infl x + N.of_nat (length reqs) in
     if U32_LIMIT <=? infl then inr EOverflow
-    else inl (mkSC c2 (if pending_write c2 then AwaitOut else sc_st x) infl (sc_client x) (sc_out x), reqs)
+    else inl (mkSC c2 (if pending_write c2 then AwaitOut else sc_st x) infl (sc_client x) (sc_out x) (sc_gid x), reqs)
   end.
 
 (* ClientConnection::write (with the repair: nothing is written on a closed connection).
@@ -109,9 +110,9 @@ Definition cc_write (x : sconn) (can_receive : bool) : (sconn * bytes) + serr :=
     match res with
     | WrPanic _ => inr EPanic
     | WrErr InvalidWrite => inr EInvalidWrite
-    | WrErr _ => inl (mkSC c1 SClosed (sc_infl x) (sc_client x) (sc_out x), [])
+    | WrErr _ => inl (mkSC c1 SClosed (sc_infl x) (sc_client x) (sc_out x) (sc_gid x), [])
     | WrOk =>
-        inl (mkSC c1 (if pending_write c1 then sc_st x else AwaitIn) (sc_infl x) (sc_client x) (sc_out x),
+        inl (mkSC c1 (if pending_write c1 then sc_st x else AwaitIn) (sc_infl x) (sc_client x) (sc_out x) (sc_gid x),
              if can_receive then offered else [])
     end
   end.
@@ -119,13 +120,13 @@ Definition cc_write (x : sconn) (can_receive : bool) : (sconn * bytes) + serr :=
 Definition cc_enqueue (x : sconn) (r : response) : sconn + serr :=
   let c := match sc_st x with SClosed => sc_conn x | _ => enqueue_response (sc_conn x) r end in
   if sc_infl x =? 0 then inr EUnderflow
-  else inl (mkSC c (sc_st x) (sc_infl x - 1) (sc_client x) (sc_out x)).
+  else inl (mkSC c (sc_st x) (sc_infl x - 1) (sc_client x) (sc_out x) (sc_gid x)).
 
 Definition is_done (x : sconn) : bool :=
   sstate_eqb (sc_st x) SClosed && negb (pending_write (sc_conn x)) && (sc_infl x =? 0).
 
 (* ---------- the kernel's view of one client ---------- *)
-Inductive cplace := InBacklog | Accepted (gid : nat) | Gone.
+Inductive cplace := InBacklog | Accepted (fd : nat) | Gone.
 Record client := mkCl {
   k_open : bool;             (* the client has not closed its socket *)
   k_shut_wr : bool;
@@ -140,9 +141,9 @@ Definition k_can_receive (cl : client) : bool := k_open cl && negb (k_shut_rd cl
 
 Record world := mkW {
   w_clients : list (nat * client);
-  w_conns : list (nat * sconn);            (* keyed by connection instance id, oldest first *)
+  w_conns : list (nat * sconn);            (* keyed by descriptor number, oldest first *)
   w_backlog : list nat;                    (* clients waiting to be accepted, oldest first *)
-  w_tokens : list (nat * request);         (* outstanding requests: instance id and request *)
+  w_tokens : list (nat * nat * request);   (* outstanding requests: descriptor (the token), instance (ghost), request *)
   w_nextg : nat;
   w_limit : N;
   w_killed : bool;
@@ -170,7 +171,7 @@ Definition client_of (w : world) (c : nat) : client :=
   match alookup c (w_clients w) with Some cl => cl | None => dead_client end.
 
 (* ---------- one epoll event ---------- *)
-Inductive event := EvHup (g : nat) | EvIn (g : nat) | EvOut (g : nat) | EvListener.
+Inductive event := EvHup (g : nat) | EvIn (g : nat) | EvOut (g : nat) | EvListener (newfd : nat) | EvKill.
 
 (* readiness of one connection (level-triggered) *)
 Definition conn_event (w : world) (g : nat) (x : sconn) : option event :=
@@ -179,12 +180,17 @@ Definition conn_event (w : world) (g : nat) (x : sconn) : option event :=
   else if sc_out x then Some (EvOut g)
   else match k_tosrv cl with [] => None | _ => Some (EvIn g) end.
 
-Definition ready_events (w : world) : list event :=
-  flat_map (fun p => match conn_event w (fst p) (snd p) with Some e => [e] | None => [] end) (w_conns w)
-  ++ match w_backlog w with [] => [] | _ => [EvListener] end.
+(* a descriptor number not in use (Linux hands out the lowest free one; the theorems hold for any
+   unused number, and no observation depends on the choice) *)
+Definition fresh_fd (w : world) : nat := S (fold_right Nat.max 0%nat (map fst (w_conns w))).
 
-(* the yield of one poll: instance id and request *)
-Definition yield := (nat * request)%type.
+Definition ready_events (w : world) : list event :=
+  (if w_killed w then [EvKill] else [])
+  ++ flat_map (fun p => match conn_event w (fst p) (snd p) with Some e => [e] | None => [] end) (w_conns w)
+  ++ match w_backlog w with [] => [] | _ => [EvListener (fresh_fd w)] end.
+
+(* the yield of one poll: descriptor (the token the application gets), instance (ghost), request *)
+Definition yield := (nat * nat * request)%type.
 
 Definition handle_event (w : world) (e : event) : (world * list yield) + serr :=
   match e with
@@ -192,7 +198,7 @@ Definition handle_event (w : world) (e : event) : (world * list yield) + serr :=
       match alookup g (w_conns w) with
       | None => inr EPanic                       (* connections.get_mut(&fd).unwrap() *)
       | Some x =>
-          inl (set_conn w g (mkSC (clear_write_buffer (sc_conn x)) SClosed (sc_infl x) (sc_client x) (sc_out x)), [])
+          inl (set_conn w g (mkSC (clear_write_buffer (sc_conn x)) SClosed (sc_infl x) (sc_client x) (sc_out x) (sc_gid x)), [])
       end
   | EvIn g =>
       match alookup g (w_conns w) with
@@ -205,11 +211,11 @@ Definition handle_event (w : world) (e : event) : (world * list yield) + serr :=
           | inr err => inr err
           | inl (y, reqs) =>
               let y' := match sc_st y with
-                        | AwaitOut => mkSC (sc_conn y) (sc_st y) (sc_infl y) (sc_client y) true
+                        | AwaitOut => mkSC (sc_conn y) (sc_st y) (sc_infl y) (sc_client y) true (sc_gid y)
                         | _ => y
                         end in
               let cl' := mkCl (k_open cl) (k_shut_wr cl) (k_shut_rd cl) (skipn n (k_tosrv cl)) (k_rx cl) (k_place cl) in
-              inl (set_client (set_conn w g y') (sc_client x) cl', map (fun r => (g, r)) reqs)
+              inl (set_client (set_conn w g y') (sc_client x) cl', map (fun r => (g, sc_gid x, r)) reqs)
           end
       end
   | EvOut g =>
@@ -221,14 +227,15 @@ Definition handle_event (w : world) (e : event) : (world * list yield) + serr :=
           | inr err => inr err
           | inl (y, sent) =>
               let y' := match sc_st y with
-                        | AwaitIn => mkSC (sc_conn y) (sc_st y) (sc_infl y) (sc_client y) false
+                        | AwaitIn => mkSC (sc_conn y) (sc_st y) (sc_infl y) (sc_client y) false (sc_gid y)
                         | _ => y
                         end in
               let cl' := mkCl (k_open cl) (k_shut_wr cl) (k_shut_rd cl) (k_tosrv cl) (k_rx cl ++ sent) (k_place cl) in
               inl (set_client (set_conn w g y') (sc_client x) cl', [])
           end
       end
-  | EvListener =>
+  | EvKill => inr EShutdown
+  | EvListener nf =>
       match w_backlog w with
       | [] => inl (w, [])
       | c :: rest =>
@@ -240,9 +247,9 @@ Definition handle_event (w : world) (e : event) : (world * list yield) + serr :=
             inl (mkW (aupdate c cl' (w_clients w)) (w_conns w) rest (w_tokens w) (w_nextg w) (w_limit w) (w_killed w), [])
           else
             let g := w_nextg w in
-            let x := mkSC (set_payload_max_size conn_new (w_limit w)) AwaitIn 0 c false in
-            let cl' := mkCl (k_open cl) (k_shut_wr cl) (k_shut_rd cl) (k_tosrv cl) (k_rx cl) (Accepted g) in
-            inl (mkW (aupdate c cl' (w_clients w)) (w_conns w ++ [(g, x)]) rest (w_tokens w) (S g) (w_limit w) (w_killed w), [])
+            let x := mkSC (set_payload_max_size conn_new (w_limit w)) AwaitIn 0 c false g in
+            let cl' := mkCl (k_open cl) (k_shut_wr cl) (k_shut_rd cl) (k_tosrv cl) (k_rx cl) (Accepted nf) in
+            inl (mkW (aupdate c cl' (w_clients w)) (w_conns w ++ [(nf, x)]) rest (w_tokens w) (S g) (w_limit w) (w_killed w), [])
       end
   end.
 
@@ -274,23 +281,22 @@ Inductive poll_res :=
 
 (* HttpServer::requests, with a given order of the ready events *)
 Definition poll_with (w : world) (es : list event) : poll_res :=
-  if w_killed w then PErr EShutdown
-  else match es with
-       | [] => PBlocked
-       | _ => match handle_all w es [] with
-              | inl (w', ys) => PYield (sweep w') ys
-              | inr e => PErr e
-              end
-       end.
+  match es with
+  | [] => PBlocked
+  | _ => match handle_all w es [] with
+         | inl (w', ys) => PYield (sweep w') ys
+         | inr e => PErr e
+         end
+  end.
 Definition poll (w : world) : poll_res := poll_with w (ready_events w).
 
-(* HttpServer::respond for the connection instance g *)
+(* HttpServer::respond: the token is the descriptor number g *)
 Definition respond (w : world) (g : nat) (r : response) : world + serr :=
   match alookup g (w_conns w) with
   | None => inl w
   | Some x =>
       let x1 := match sc_st x with
-                | AwaitIn => mkSC (sc_conn x) AwaitOut (sc_infl x) (sc_client x) true
+                | AwaitIn => mkSC (sc_conn x) AwaitOut (sc_infl x) (sc_client x) true (sc_gid x)
                 | _ => x
                 end in
       match cc_enqueue x1 r with
@@ -320,7 +326,7 @@ Definition flush_one (w : world) (p : nat * sconn) : world :=
   let was_out := sstate_eqb (sc_st x) AwaitOut in
   let '(y, sent) := flush_conn (S (S (length (c_rq (sc_conn x))))) x (k_can_receive cl) [] in
   let y' := if was_out && sstate_eqb (sc_st y) AwaitIn
-            then mkSC (sc_conn y) (sc_st y) (sc_infl y) (sc_client y) false else y in
+            then mkSC (sc_conn y) (sc_st y) (sc_infl y) (sc_client y) false (sc_gid y) else y in
   let cl' := mkCl (k_open cl) (k_shut_wr cl) (k_shut_rd cl) (k_tosrv cl) (k_rx cl ++ sent) (k_place cl) in
   set_client (set_conn w g y') (sc_client x) cl'.
 
